@@ -591,3 +591,12 @@ def fixed_node_entries(ctx):
     S_, c, s, n = z3.Reals("S c s n")
     ctx.ob("lemma/running-mean", "lemma", [c > 0, n > 0], ((S_ / c) * c + s) / (n + c) == (S_ + s) / (c + n))
     ctx.ob("lemma/first-fixing-is-plain-mean", "lemma", [n > 0], (z3.Real("p0") * 0 + s) / (n + 0) == s / n)
+
+
+@unit("C03", "lean_lemmas", engine="Lean")
+def lean_lemmas(ctx):
+    """spec-level lemmas (Lean 4 + Mathlib, lean/Lemmas.lean): identity / fixed-pressure rows are affine,
+    so the prescribed value is exact after a full step (L1); the running-mean update of
+    set_fixed_node_entries over successive calls is the mean of all fixed values at the node."""
+    ctx.lean("L1/affine-row-exact-after-full-step", ["L1_affine_row_exact"])
+    ctx.lean("mean/running-mean-over-successive-calls", ["running_mean", "running_mean_first"])
